@@ -774,6 +774,18 @@ class Unit:
                 if toks[i].kind == "ident" and toks[i].text == "self":
                     edits.append(Edit(i, i + 1, "__self", ("gen", "R17")))
 
+        # R11: pattern in parameter position `&(a, b): T` -> `__p: T` + `let (a, b) = *__p;`
+        r11 = None
+        for k, i in enumerate(sgh):
+            if toks[i].text == "&" and toks[sgh[k + 1]].text == "(" and toks[sgh[k - 1]].text in (",", "("):
+                close = L.match_close(toks, sgh[k + 1])
+                nxt = [j for j in sgh if j > close][0]
+                if toks[nxt].text == ":":
+                    pat = L.text(toks, sgh[k + 1], close + 1)
+                    edits.append(Edit(i, close + 1, "__p", ("gen", "R11")))
+                    r11 = "let %s = *__p;\n" % pat
+                    self.rewrites.append("R11 %s:%d pattern parameter `&%s` of %s -> `__p` + `%s`" % (rf.rel, toks[i].line, pat, qual, r11.strip()))
+
         def tpl_text(lines):
             return "".join(l + "\n" for l, _ in lines)
 
@@ -825,6 +837,8 @@ class Unit:
             entry_txt = "proof { assert(false); } // VACUITY-PROBE\n" + entry_txt
         if r17:
             entry_txt = "let mut __self = self;\n" + entry_txt
+        if r11 and not fs.assume:
+            entry_txt = r11 + entry_txt
         if entry_txt:
             edits.append(Edit(bo + 1, bo + 1, "\n" + entry_txt, ("tpl", relname, (fs.entry[0][1] - 1) if fs.entry else fs.tpl_line)))
         if fs.exit:
